@@ -86,3 +86,9 @@ package views
 //@   requires v != nil
 //@   modifies nothing
 //@   ensures [same-data] result != nil && fresh(result) && deref(result.data) == data && result.view == v.interrupt
+//@
+//@ func New
+//@   props C14 C08 C06
+//@   trusted parses the built-in templates (template.Must panics only on a malformed built-in template: covered by the golden tests); no effect on modelled state
+//@   modifies nothing
+//@   ensures result != nil && fresh(result)
